@@ -193,6 +193,9 @@ func C04XmlNs() {
 	n := 2 + zz.NondetChoice("nkids", 2)
 	for i := 0; i < n; i++ {
 		k := &zzX{name: "T", kids: []*zzX{zzLeafX()}}
+		if zz.NondetBool("textOnly") {
+			k.kids = []*zzX{{text: zzVal("tv")}} // no child elements: <T>v</T>
+		}
 		if zz.NondetBool("prefixed") {
 			k.prefix, k.uri = "p", "u:p"
 		}
@@ -212,6 +215,7 @@ func C04XmlNs() {
 			}
 		}
 	}
+	zz.Observe("selection", xp, len(cands), len(want))
 	sp, err := NewXMLStreamReader(&zzChunkReader{data: root.write(nil), failAt: -1}, xp)
 	zz.Assume(err == nil)
 	got := 0
